@@ -87,6 +87,10 @@ def drive(mc, entry, nsteps, mutate=None):
     return per_step
 
 
+def entry_kind(k):
+    return ("run", "srun", "irun")[k % 3]
+
+
 def snapshot(mc):
     return [{"name": n, "e": {"interval": int(st.interval), "weight": int(st.probability), "min": int(st.minimum_count)}} for n, st in mc.moves.items()]
 
@@ -253,13 +257,24 @@ def run(tier: str) -> int:
             if not table:
                 continue
             # make sure every step is schedulable (some due move has positive weight)
-            if not any(t["e"]["weight"] > 0 and t["e"]["interval"] == 1 for t in table):
+            if k % 2 == 1 and entry_kind(k) != "irun":
+                # tables WITHOUT an every-step move (all periodic, intervals that need not divide each other): every due
+                # set must then be able to fill its free slots, so every weight is positive; steps on which nothing is due
+                # must emit nothing
+                for t in table:
+                    if t["e"]["weight"] == 0:
+                        t["e"]["weight"] = 1
+                        mc.moves[t["name"]].probability = 1.0
+                    if t["e"]["interval"] == 1:
+                        t["e"]["interval"] = int(rs.choice([2, 3, 4, 6]))
+                        mc.moves[t["name"]].interval = t["e"]["interval"]
+            elif not any(t["e"]["weight"] > 0 and t["e"]["interval"] == 1 for t in table):
                 table[0]["e"]["weight"] = 1
                 table[0]["e"]["interval"] = 1
                 mc.moves[table[0]["name"]].probability = 1.0
                 mc.moves[table[0]["name"]].interval = 1
             nsteps = int(min(2 * np.lcm.reduce([t["e"]["interval"] for t in table]), 40))
-            entry = ("run", "srun", "irun")[k % 3]
+            entry = entry_kind(k)
             per_step = []
             def mutate(sim, step, _rs=rs, _c=cycles):
                 if _rs.rand() < 0.4:
@@ -359,6 +374,6 @@ def run(tier: str) -> int:
     sd, nd = default_table_layer(rep, tier)
     rep.add(states=sd, default_tables=nd)
     rep.add(states=r.distinct, transitions=r.generated, traces_validated_against_impl=ncase + len(records), small_tables=ncase, trace_records=len(records), worst_frequency_z=round(worst, 2),
-            rule="(1) every 1-2 move table over intervals {1,2}, weights {0,1,3}, minimum counts {0,1}, cycles 1..3, steps 0..2 exported by TLC with its complete allowed set: the code's emitted set must equal it (no forbidden schedule, no lost schedule); (2) run/srun/irun traces of random tables (<= 5 moves, intervals <= 7, weights incl. 0, cycles <= 12, steps up to 2 lcm) and every add_move (accepted or refused) judged record by record by TLC (Sched_Trace.tla); (3) slot frequencies against the exact probabilities, |z| <= 6; non-trivial = more than one allowed schedule / more than one name emitted")
+            rule="(1) every 1-2 move table over intervals {1,2,3}, weights {0,1,3}, minimum counts {0,1}, cycles 1..3, steps 0..3 exported by TLC with its complete allowed set: the code's emitted set must equal it (no forbidden schedule, no lost schedule); (2) run/srun/irun traces of random tables (<= 5 moves, intervals <= 7, weights incl. 0, cycles <= 12, steps up to 2 lcm; half of the run/srun tables have no every-step move) and every add_move (accepted or refused) judged record by record by TLC (Sched_Trace.tla); (3) slot frequencies against the exact probabilities, |z| <= 6; non-trivial = more than one allowed schedule / more than one name emitted")
     rep.assumptions += ["tables whose due moves all have weight zero while free slots remain are outside the property (excluded by Schedulable)"]
     return rep.finish()
